@@ -84,6 +84,7 @@ fn dispatch(st: &mut State, line: &str) -> String {
         "verify" => crypto::cmd_verify(rest),
         "edsign" => crypto::cmd_edsign(rest),
         "edpk" => crypto::cmd_edpk(rest),
+        "edverify" => crypto::cmd_edverify(rest),
         "sha512" => crypto::cmd_sha512(rest),
         "envelope" => misc::cmd_envelope(rest),
         "envdec" => misc::cmd_envdec(rest),
